@@ -79,7 +79,7 @@ def gen_case(rng, params, idx):
 
     meth(target)
     # companions
-    comp = rng.choice(["general+specific", "overlap-union", "literals", "random", "none"])
+    comp = rng.choice(["general+specific", "overlap-union", "literals", "random", "none", "duplicate", "duplicate"])
     if comp == "general+specific":
         meth("object")
         meth(rng.choice(names))
@@ -90,6 +90,12 @@ def gen_case(rng, params, idx):
         for v in rng.sample([0, 1, 2, 3, 5, "a", "b"], rng.randint(4, 5)):
             meth(["L", v])
         meth("int")
+    elif comp == "duplicate":
+        # a second method with the *same* signature (canonical spelling): respelling the first one must leave them
+        # identical signatures - the later one keeps replacing the earlier one
+        methods.append({"mid": len(methods), "pos": [dict(p) for p in methods[0]["pos"]], "kw": [], "prio": 0, "kind": "leaf"})
+        if rng.random() < 0.5:
+            meth("object", prio=-1)
     elif comp == "random":
         for _ in range(rng.randint(1, 4)):
             meth(gen.gen_wide_tx(rng, names, depth=1), prio=rng.choice([0, 0, 1]))
